@@ -18,7 +18,8 @@ def toI8 (b : Nat) : Int := if b < 128 then (b : Int) else (b : Int) - 256
 def sliceGt (a b : List Nat) : Bool := lexLt b a
 
 /-- `compare_greater_byte_array_decimals(a, b)` (column/writer/mod.rs), statement by
-statement.  Note the final line compares `a[1..]` with `b[1..]` whatever the lengths. -/
+statement (as of the fix of the unequal-length case: once the leading bytes of the longer
+operand are pure sign extension, its remaining bytes are compared with the shorter operand). -/
 def compareGreaterByteArrayDecimals (a b : List Nat) : Bool :=
   match a, b with
   | [], _ => false                       -- a_length == 0            → a_length > 0 = false
@@ -30,15 +31,20 @@ def compareGreaterByteArrayDecimals (a b : List Nat) : Bool :=
       decide (toI8 fa > toI8 fb)
     else
       let ext : Nat := if toI8 fa < 0 then DEC_NEG_EXT else 0
-      let notEqual : Bool :=
-        if aLen > bLen then ((fa :: ta).take (aLen - bLen)).any (fun x => x != ext)
-        else ((fb :: tb).take (bLen - aLen)).any (fun x => x != ext)
-      if aLen ≠ bLen ∧ notEqual = true then
-        let negative : Bool := decide (toI8 fa < 0)
-        let aLonger : Bool := decide (aLen > bLen)
-        if negative then !aLonger else aLonger
+      if aLen ≠ bLen then
+        let notEqual : Bool :=
+          if aLen > bLen then ((fa :: ta).take (aLen - bLen)).any (fun x => x != ext)
+          else ((fb :: tb).take (bLen - aLen)).any (fun x => x != ext)
+        if notEqual = true then
+          let negative : Bool := decide (toI8 fa < 0)
+          let aLonger : Bool := decide (aLen > bLen)
+          if negative then !aLonger else aLonger
+        else if aLen > bLen then
+          sliceGt ((fa :: ta).drop (aLen - bLen)) (fb :: tb)      -- a[a_length - b_length..] > *b
+        else
+          sliceGt (fa :: ta) ((fb :: tb).drop (bLen - aLen))      -- *a > b[b_length - a_length..]
       else
-        sliceGt ta tb
+        sliceGt ta tb                                             -- (a[1..]) > (b[1..])
 
 /-- `compare_greater` for INT32/INT64 with SIGNED order: `a > b` on `iN` -/
 def compareGreaterSigned (a b : Int) : Bool := decide (a > b)
